@@ -10,6 +10,7 @@ import (
 	"io"
 	"os"
 	"path/filepath"
+	"runtime"
 	"sort"
 	"strings"
 	"sync/atomic"
@@ -82,10 +83,13 @@ type c16Lister struct {
 	behaviour int // 0: EOF with last entries, 1: EOF on the following call, 2: short batches (nil error), 3: short + EOF later
 	calls     atomic.Int32
 	short     int
+	onCall    func(n int32) // runs at the start of the n-th ListAt call
 }
 
 func (l *c16Lister) ListAt(out []os.FileInfo, off int64) (int, error) {
-	l.calls.Add(1)
+	if n := l.calls.Add(1); l.onCall != nil {
+		l.onCall(n)
+	}
 	if off >= int64(len(l.ents)) {
 		return 0, io.EOF
 	}
@@ -401,9 +405,59 @@ func c16InMem(u *vfUnit) {
 	}
 }
 
+// c16Abandoned: the caller of ReadDirContext gives up (its context is cancelled) in the middle of a listing of several
+// batches. What it gets back is either the whole listing, or an error beside the entries received so far — never a
+// part of the listing passed off as the listing.
+func c16Abandoned(u *vfUnit) {
+	defer func() { MaxFilelist = 100 }()
+	for _, at := range []int32{1, 2, 3} {
+		MaxFilelist = 10
+		l := &c16Lister{behaviour: int(at) % 2}
+		for j := 0; j < 25; j++ {
+			l.ents = append(l.ents, c16Info{fmt.Sprintf("e%02d", j), int64(j), 0o644, int64(1500000000 + j)})
+		}
+		ctx, cancel := context.WithCancel(context.Background())
+		l.onCall = func(n int32) {
+			if n == at {
+				cancel()
+				for spin := 0; spin < 300; spin++ {
+					runtime.Gosched() // let the caller notice before the batch is handed out
+				}
+			}
+		}
+		sess, err := vfConnect(vfSrvCfg{Kind: vfRS, H: Handlers{FileList: c16Handlers{l, false}}}, vfPipeOpts{})
+		if err != nil {
+			u.Inconclusive("connect: %v", err)
+			cancel()
+			return
+		}
+		var ents []os.FileInfo
+		var lerr error
+		label := fmt.Sprintf("RequestServer/abandoned-in-batch-%d", at)
+		if w, dump := vfAwait(vfGo(func() { ents, lerr = sess.C.ReadDirContext(ctx, "/dir") }), 60*time.Second); w != vfDone {
+			u.Violation("listing-hang:"+label, "ReadDirContext does not return\n"+vfTrim(dump, 2000), nil)
+			cancel()
+			return
+		}
+		cancel()
+		u.Count("listings_abandoned_by_their_caller", 1)
+		if lerr == nil && len(ents) != 25 {
+			u.Violation("partial-listing-without-error", fmt.Sprintf("%s: ReadDirContext returned %d of 25 entries and a nil error after its context was cancelled", label, len(ents)), nil)
+		}
+		// the session is as good as before
+		if again, err := sess.C.ReadDir("/dir"); err != nil || len(again) != 25 {
+			u.Violation("listing-after-abandoned-listing", fmt.Sprintf("%s: the next ReadDir returned %d entries, err %v", label, len(again), err), nil)
+		}
+		if msg := sess.Close(); msg != "" {
+			u.Violation("session-close", label+": "+msg, nil)
+		}
+	}
+}
+
 func c16RS(u *vfUnit, part, parts int) {
 	if part == 0 {
 		c16InMem(u)
+		c16Abandoned(u)
 	}
 	defer func() { MaxFilelist = 100 }()
 	batches := []int{1, 2, 3, 7}
